@@ -137,7 +137,7 @@ func execBrd(o *Out, id, line string) {
 			rest, _ := io.ReadAll(s)
 			if e != nil || !bytes.Equal(got, out) {
 				o.Violate("C10", fmt.Sprintf("brotli through source %s: err=%v equal=%v", src, e, bytes.Equal(got, out)), "source-shape", line)
-			} else if want := append(append([]byte{}, in[min(int(inOff), len(in)):]...), tr...); src != "bufio16" && (!bytes.Equal(rest, want) || zr.InputOffset != inOff) {
+			} else if want := append(append([]byte{}, in[min(int(inOff), len(in)):]...), tr...); zr.InputOffset != inOff || (src != "bufio16" && !bytes.Equal(rest, want)) {
 				o.Violate("C11", fmt.Sprintf("brotli through source %s left %d unread bytes (trailer %d), InputOffset %d vs %d", src, len(rest), len(tr), zr.InputOffset, inOff), "over-read", line)
 			}
 		}
